@@ -72,6 +72,19 @@ Proof. reflexivity. Qed.
 Lemma tie_tuple_sizes : gen_tuple_sizes = tuple_sizes.
 Proof. reflexivity. Qed.
 
+(* ---- the inverse bounds of Lengthen / Shorten as they stand in the trait declarations ---- *)
+Definition inverse_eq_of (tr : string) : bool :=
+  match find (fun r => String.eqb (fst (fst (fst r))) tr) gen_inverse_bounds with
+  | Some (_, _, _, Some _) => true
+  | _ => false
+  end.
+
+Lemma tie_inverse_bounds :
+  gen_inverse_bounds = [("Lengthen", "Longer", "Shorten", Some "Shorter"); ("Shorten", "Shorter", "Lengthen", Some "Longer")] /\
+  inverse_eq_of "Lengthen" = inverse_bound_has_equality 0 /\
+  inverse_eq_of "Shorten" = inverse_bound_has_equality 1.
+Proof. repeat split. Qed.
+
 (* ---- lifetimes: every safe public / trait function of GenericArray and GenericArrayIter in
         lib.rs, impls.rs, iter.rs, sequence.rs whose result carries a reference (or a
         slice iterator's lifetime), as regenerated with lifetime elision applied
